@@ -25,7 +25,8 @@ Inductive lprim :=
 | PBytes (max : Z)             (* WriteBytes / ReadBytesLen(max) *)
 | PUUID                        (* WriteUUID / ReadUUID, also WriteUUID / ReadUUIDIntArray (same 16 bytes) *)
 | PFixed (n : nat)             (* exactly n raw bytes (message signatures: 256, last-seen bitset: 3) *)
-| PBytes17 (ext : bool)        (* WriteBytes17 / ReadBytes17 as implemented: ONE length byte (+ optional high byte) *)
+| PBytes17                     (* WriteBytes17 / ReadBytes17 as implemented: ONE length byte (+ optional high byte); the allowExtended
+                                  argument only changes which lengths the writer refuses (not modelled: refused values never reach a decoder) *)
 | PBytes17V                    (* vanilla 1.7 array: two-byte short (Forge: third byte when bit 15 set) *)
 | PUUIDStr (dashed : bool)     (* ServerLoginSuccess < 1.16: WriteString(uuid.String() / Undashed()), uuid.Parse(ReadStringMax(36/32)) *)
 | PKey.                        (* WriteKey / ReadKey: validated "namespace:value" string; atom = the key's String() *)
@@ -39,7 +40,7 @@ Definition lprim_eqb (a b : lprim) : bool :=
   | PBytes _, PBytes _ => true
   | PUUID, PUUID => true
   | PFixed n, PFixed m => Nat.eqb n m
-  | PBytes17 e, PBytes17 e' => Bool.eqb e e'
+  | PBytes17, PBytes17 => true
   | PBytes17V, PBytes17V => true
   | PUUIDStr d, PUUIDStr d' => Bool.eqb d d'
   | PKey, PKey => true
@@ -184,9 +185,8 @@ Definition lp_enc (p : lprim) (a : atom) : res bytes :=
   | PBytes _, ABytes s => Ok (enc_varint (lenZ s) ++ s)
   | PUUID, ABytes u => if Nat.eqb (length u) 16 then Ok u else Err EDomain
   | PFixed n, ABytes s => if Nat.eqb (length s) n then Ok s else Err EDomain
-  | PBytes17 ext, ABytes s =>
-      if (if ext then forge_max else 32767) <? lenZ s then Err EDomain
-      else Ok (impl_enc_fshort (lenZ s) ++ s)
+  | PBytes17, ABytes s =>
+      if forge_max <? lenZ s then Err EDomain else Ok (impl_enc_fshort (lenZ s) ++ s)
   | PBytes17V, ABytes s =>
       if forge_max <? lenZ s then Err EDomain else Ok (van_enc_fshort (lenZ s) ++ s)
   | PUUIDStr d, ABytes u =>
@@ -212,7 +212,7 @@ Definition lp_dec (p : lprim) (bs : bytes) : res (atom * bytes) :=
   | PBytes max => match dec_lenpref max bs with Ok (s, r) => Ok (ABytes s, r) | Err e => Err e end
   | PUUID => match take_n 16 bs with Ok (u, r) => Ok (ABytes u, r) | Err e => Err e end
   | PFixed n => match take_n n bs with Ok (s, r) => Ok (ABytes s, r) | Err e => Err e end
-  | PBytes17 _ =>
+  | PBytes17 =>
       match impl_dec_fshort bs with
       | Err e => Err e
       | Ok (n, rest) => match take_n (Z.to_nat n) rest with Ok (s, r) => Ok (ABytes s, r) | Err e => Err e end
@@ -243,7 +243,7 @@ Definition lp_alloc (p : lprim) (bs : bytes) : N :=
   | PBytes max => claimed_len max bs
   | PUUID => 16
   | PFixed n => N.of_nat n
-  | PBytes17 _ => match bs with b :: _ => b | [] => 0 end
+  | PBytes17 => match bs with b :: _ => b | [] => 0 end
   | PBytes17V => match van_dec_fshort bs with Ok (n, _) => if (forge_max <? n)%Z then 0 else Z.to_N n | Err _ => 0 end
   | PUUIDStr d => (2 * claimed_len (4 * (if d then 36 else 32))%Z bs + 16)%N
   | PKey => (4 * claimed_len (4 * default_max)%Z bs)%N
@@ -256,7 +256,7 @@ Definition lp_cap (p : lprim) : N :=
   | PBytes max => Z.to_N max
   | PUUID => 16
   | PFixed n => N.of_nat n
-  | PBytes17 _ => 255
+  | PBytes17 => 255
   | PBytes17V => Z.to_N forge_max
   | PUUIDStr _ => 304
   | PKey => Z.to_N (16 * default_max)%Z
@@ -269,7 +269,6 @@ Definition lp_min (p : lprim) : N :=
   | PUUID => 16
   | PFixed n => N.of_nat n
   | PBytes17V => 2
-  | PUUIDStr _ => 33
   | _ => 1
   end%N.
 
@@ -294,8 +293,8 @@ Definition lp_domb (p : lprim) (a : atom) : bool :=
   | PBytes max, ABytes s => wf_bytesb s && (lenZ s <=? max) && (lenZ s <? 2 ^ 31)
   | PUUID, ABytes u => wf_bytesb u && Nat.eqb (length u) 16
   | PFixed n, ABytes s => wf_bytesb s && Nat.eqb (length s) n
-  | PBytes17 _, ABytes s => wf_bytesb s && (lenZ s <? 256)
-  | PBytes17V, ABytes s => wf_bytesb s && (lenZ s <=? forge_max)
+  | PBytes17, ABytes s => wf_bytesb s && (lenZ s <? 256)
+  | PBytes17V, ABytes s => wf_bytesb s && (lenZ s <? 32768)      (* vanilla lengths; Forge's three-byte form is outside the theorem *)
   | PUUIDStr _, ABytes u => wf_bytesb u && Nat.eqb (length u) 16
   | PKey, ABytes s =>
       wf_bytesb s && valid_key (canon_key s) && beq_bytes (key_string (canon_key s)) s && (lenZ s <=? 4 * default_max)
